@@ -367,8 +367,30 @@ pub fn run_c17(seed: u64, n: usize, out: &mut Out) {
                 _ => format!("##{}{}", gap, s),
             });
         }
+        // the same class / id as a bare selector and as the lead of longer ones (two stores, one key)
+        if r.pct(35) {
+            let c = *r.pick(&[&"ad", &"ad-banner", &"x", &"a\\:b"]);
+            lines.push(format!("##.{}", c));
+            lines.push(format!("##.{} + .caption", c));
+            lines.push(format!("##.{} > div[data-x]", c));
+            let i = *r.pick(&[&"ad", &"top_ad", &"banner"]);
+            lines.push(format!("###{}", i));
+            lines.push(format!("###{} ~ .promo", i));
+        }
         crate::c11::emit_cplines(out, &lines);
-        let e = Engine::from_rules_parametrised(&lines, Default::default(), true, true);
+        let mut e = Engine::from_rules_parametrised(&lines, Default::default(), true, true);
+        // the lookup answers the same after the engine went through serialize / deserialize
+        if r.pct(35) {
+            if let Ok(bytes) = e.serialize_raw() {
+                let mut e2 = Engine::new(true);
+                if e2.deserialize(&bytes).is_ok() {
+                    e = e2;
+                    out.bump("c17_reloaded_engines");
+                } else {
+                    out.fail("deserialize-of-own-serialization-failed", None, json!({"rules": lines}));
+                }
+            }
+        }
         let crules: Vec<CosmeticFilter> = lines.iter().filter_map(|l| parse_cosm(l)).collect();
         for f in &crules {
             if let Some(what) = generic_rule_defect(f) {
